@@ -156,8 +156,32 @@ def respell(rng, path, with_ns=True):
 # building the repository
 # ----------------------------------------------------------------------------
 
-class BuildError(Exception):
-    pass
+_NULL_REF_STORABLE = None
+
+
+def null_ref_storable():
+    """Does the mock accept CreateInstance of an association instance with an
+    explicit NULL (non-key) reference?  (It does not on the tree this check
+    was written for: AttributeError.  If it ever does, graphs with stored
+    NULL references become reachable and are generated.)"""
+    global _NULL_REF_STORABLE
+    if _NULL_REF_STORABLE is None:
+        conn = fresh_conn(False)
+        try:
+            conn.CreateInstance(CIMInstance("Vn_Node", properties=[
+                ("Id", Uint32(1)), ("Tag", "t1")]), namespace=NSNAME[1])
+            conn.CreateInstance(CIMInstance("Va_Loose", properties=[
+                CIMProperty("Id", Uint32(1)),
+                CIMProperty("Antecedent", CIMInstanceName(
+                    "Vn_Node", {"Id": Uint32(1), "Tag": "t1"},
+                    namespace=NSNAME[1]), type="reference"),
+                CIMProperty("Dependent", None, type="reference",
+                            reference_class="Vm_Mate")]),
+                namespace=NSNAME[1])
+            _NULL_REF_STORABLE = True
+        except Exception:  # noqa: any refusal
+            _NULL_REF_STORABLE = False
+    return _NULL_REF_STORABLE
 
 
 def _mof_str(s):
@@ -200,7 +224,10 @@ def build(rng, nodes, creates, mode, use_pull):
     for c in creates:
         roles = ROLES[c["cls"]]
         ends = []
-        for r, e in zip(roles, c["ends"]):
+        nulls = []
+        for r, rc, e in zip(roles, REFCLASS[c["cls"]], c["ends"]):
+            if not e and null_ref_storable() and rng.random() < 0.5:
+                nulls.append((ROLENAME[r], CLASSNAME[rc]))   # explicit NULL
             if e:
                 # reference values carry their namespace (documented
                 # requirement of the mock); spelling of the rest varies
@@ -221,6 +248,8 @@ def build(rng, nodes, creates, mode, use_pull):
                 body.append("%s = %s;" % (
                     maybe_recase(rng, k, 0.3),
                     _mof_str(q.to_wbem_uri(format="standard"))))
+            for k, _ in nulls:
+                body.append("%s = NULL;" % maybe_recase(rng, k, 0.3))
             rng.shuffle(body)
             mof = "instance of %s { %s };" % (cn, " ".join(body))
             log.append("compile_mof_string(ns=%s): %s" % (NSNAME[c["ns"]], mof))
@@ -233,6 +262,9 @@ def build(rng, nodes, creates, mode, use_pull):
                      for k, v in extra]
             props += [CIMProperty(maybe_recase(rng, k, 0.3), p,
                                   type="reference") for k, p in ends]
+            props += [CIMProperty(maybe_recase(rng, k, 0.3), None,
+                                  type="reference", reference_class=rc)
+                      for k, rc in nulls]
             rng.shuffle(props)
             inst = CIMInstance(cn, properties=props)
             log.append("CreateInstance(ns=%s): %s %s" % (
